@@ -71,7 +71,7 @@ class TLCRun:
 
 def run_tlc(spec_dirs, module, constants, cfg_extra="", export=True, workers=1,
             timeout=1800, workdir=None, extra_defs="", invariants=(), properties=(),
-            simulate=None, heap=None, view="View", deadlock=False, keep=False):
+            simulate=None, heap=None, view="View", deadlock=False, keep=False, extra_java=()):
     """Runs TLC on `module` with a generated MC wrapper. If export, every
     transition is written to <workdir>/edges.ndjson and initial states to
     inits.ndjson."""
@@ -114,6 +114,7 @@ def run_tlc(spec_dirs, module, constants, cfg_extra="", export=True, workers=1,
              "-metadir", os.path.join(wd, "meta"), "-noGenerateSpecTE"]
     if simulate:
         java += ["-simulate", simulate]
+    java += list(extra_java)
     java += ["MC.tla"]
     r = TLCRun()
     r.cmd = " ".join(java[3:])
@@ -281,6 +282,31 @@ def random_walks(g, n, depth, rng):
             if not outs:
                 break
             ei = rng.choice(outs)
+            path.append(ei)
+            if g.edges[ei][4]:
+                break
+            node = g.edges[ei][2]
+        if path:
+            paths.append(path)
+    return paths
+
+
+def sim_walks(g, n, depth, rng):
+    """Walks over a graph exported by `tlc -simulate`: TLC prints ALL successors of
+    every state a behaviour visits, so visited states have out-edges and the
+    others are leaves. A walk prefers successors that were themselves visited
+    (i.e. follows the simulated behaviours, branching where they meet) and ends
+    with one step into a leaf."""
+    paths = []
+    for _ in range(n):
+        node = rng.choice(g.inits)[0]
+        path = []
+        for _ in range(depth):
+            outs = g.out[node]
+            if not outs:
+                break
+            inner = [ei for ei in outs if g.out[g.edges[ei][2]] and not g.edges[ei][4]]
+            ei = rng.choice(inner) if inner and rng.random() < 0.9 else rng.choice(outs)
             path.append(ei)
             if g.edges[ei][4]:
                 break
